@@ -149,3 +149,19 @@ func withoutDisconnectCallback(scs ...*explore.Scenario) []*explore.Scenario {
 	}
 	return out
 }
+
+// fineGrained wraps scenarios so that every Unlock is a scheduling point as well: a preemption
+// between an Unlock and the plain statement after it is then part of the explored space.
+func fineGrained(scs ...*explore.Scenario) []*explore.Scenario {
+	var out []*explore.Scenario
+	for _, sc := range scs {
+		c := *sc
+		c.Name = sc.Name + "/unlock-points"
+		c.UnlockPoints = true
+		if c.Deepen == 0 {
+			c.Deepen = c.Bound
+		}
+		out = append(out, &c)
+	}
+	return out
+}
